@@ -16,9 +16,8 @@ RULE = (
     "concentration and flux at every level; S(q,c)-S(q,0) == (c, 0) uniformly, in dispersion and in footprint mode; footprint results for two different source arrays of "
     "the same shape are bit-identical. Non-trivial = q1,q2 linearly independent and a*b != 0; distinct = canonical JSON."
 )
-TINY = 1e-290  # below this the fields are in or next to the subnormal range, where rounding is absolute (5e-324), not relative
-ASSUMPTIONS = ["fields smaller than 1e-290 are not compared relatively (a shrunk thorough-tier report had coefficients a = 0, b = 2.2e-308 and a difference of 38 subnormal quanta)", "shooting growth bounded by exp(13.8) by construction", "levels ascending (ordering is C10's subject)"]
-TOLERANCES = {"linearity": "(1e-12 + 4096*eps*G) * (|a| max|S1| + |b| max|S2| + max|S12|)", "footprint independence": "bit-identical"}
+ASSUMPTIONS = ["fields smaller than 1e-290 (double; 1e-30 in single precision) are not compared relatively (a shrunk thorough-tier report had coefficients a = 0, b = 2.2e-308 and a difference of 38 subnormal quanta)", "shooting growth bounded by exp(13.8) by construction", "levels ascending (ordering is C10's subject)"]
+TOLERANCES = {"linearity": "(1e-12 + 4096*eps*G) * (|a| max|S1| + |b| max|S2| + max|S12|)", "footprint independence": "bit-identical", "single precision": "1e-5 * same scale"}
 BUDGET = {"quick": dict(examples=1000, shards=1), "thorough": dict(examples=10000, shards=16)}
 
 
@@ -43,6 +42,11 @@ def _case(draw):
     case["c1"] = draw(st.sampled_from([0.0, 1.0, -3.0, 380.0, 400, 5]))  # ints stay ints in JSON
     case["c2"] = draw(st.sampled_from([0.0, 2.0, 17.0]))
     case["tower"] = draw(gen.tower(case))
+    # single precision rounds the stored result, not the operator: linearity then holds to storage rounding
+    case["precision"] = draw(st.sampled_from(["double", "double", "double", "single"]))
+    if case["precision"] == "single" and draw(st.integers(0, 2)) > 0:
+        # no background: a large offset would dominate the storage rounding and hide everything else
+        case["c1"], case["c2"] = 0.0, 0.0
     return case
 
 
@@ -58,17 +62,20 @@ def check_case(case):
     a, b, c1, c2 = case["a"], case["b"], case["c1"], case["c2"]
     dom = gen.domain_of(case)
     lv = case["levels"]
-    kw = dict(modes=gen.modes_arg(case["modes"]), halo=case["halo"]["value"], precision="double",
+    kw = dict(modes=gen.modes_arg(case["modes"]), halo=case["halo"]["value"], precision=case.get("precision", "double"),
               analytic=case["analytic"])
     kx, ky = tol.max_wavenumbers(case["nx"], case["ny"], *gen.spacing_of(case))
     logG = 0.0 if case["analytic"] else tol.log_growth(z, prof, kx, ky)
-    rel = tol.rel_tol(logG)
+    single = case.get("precision") == "single"
+    rel = tol.rel_tol(logG, single)
+    TINY = 1e-30 if single else 1e-290  # float32 leaves its normal range at 1.2e-38
+    out.label(case.get("precision", "double"))
     out.label("analytic" if case["analytic"] else "numerical", f"prof={case['prof']['kind']}",
               f"halo={case['halo']['kind']}", f"levels={len(lv)}")
 
     def run(q, c):
         _, cc, ff = sut.S(q, z, prof, dom, lv, srf_bg_conc=c, **kw)
-        return sut.as3d(cc), sut.as3d(ff)
+        return sut.as3d(cc).astype(float), sut.as3d(ff).astype(float)
 
     f1s, c1s = tol.natural_scales(q1, z, prof, c1)
     f2s, c2s = tol.natural_scales(q2, z, prof, c2)
